@@ -30,17 +30,18 @@ KNOWN = os.path.join(VERIF, "known_findings.txt")
 # per check: list of (flavour, exact, runs_quick, runs_thorough)
 CHECKS = {
     "C03": {"level": "exploration",
-            "flavours": [("plain", True, 150000, 2000000), ("asan", True, 0, 150000)]},
+            "flavours": [("plain", True, 150000, 2000000), ("asan", True, 0, 150000), ("plain4", True, 0, 300000)]},
     "C08": {"level": "exploration",
             "flavours": [("plain", False, 160000, 2000000), ("plain", True, 60000, 600000), ("asan", False, 0, 200000)]},
     "C09": {"level": "exploration",
             "flavours": [("asan", False, 60000, 1000000), ("plain", False, 100000, 2000000), ("asan", True, 0, 100000),
-                         ("vg", False, 0, 400)]},
+                         ("vg", False, 0, 400), ("plain4", False, 0, 500000)]},
     "C10": {"level": "fault_enumeration",
             "flavours": [("plain", False, 100000, 2000000), ("plain", True, 30000, 100000), ("asan", False, 0, 200000),
                          ("selfchk", False, 0, 300000)]},
     "C14": {"level": "fault_enumeration",
-            "flavours": [("plain", False, 100000, 2000000), ("plain", True, 30000, 100000), ("asan", False, 0, 200000)]},
+            "flavours": [("plain", False, 100000, 2000000), ("plain", True, 30000, 100000), ("asan", False, 0, 200000),
+                         ("plain4", False, 0, 300000)]},
     "C18": {"level": "exploration",
             "flavours": [("tsan", False, 40000, 800000), ("plain", False, 100000, 2000000), ("asan", False, 0, 300000)]},
 }
